@@ -222,7 +222,10 @@ pub fn pw_unwrap<B: Backend, K: SealingKey>(rec: &mut Recorder, st: &mut Stats, 
 where
     B::V: HasKey<K>,
 {
-    if let Some(c) = pw_cost_of(B::VER, blob) {
+    // a blob the harness wrapped itself with a cost of its own choosing is always executed; the budget only
+    // protects against costs an attacker-style mutation produced
+    let honest = note["cls"] == "honest";
+    if let Some(c) = pw_cost_of(B::VER, blob).filter(|_| !honest) {
         if !within_budget(B::VER, c) {
             st.skipped_over_budget += 1;
             // parsed (must not panic) but not unwrapped: cost beyond the stated budget
